@@ -9,6 +9,7 @@
 //! printed for the Coq model (corr/SaleCorr.v: handler state, queries, every balance).
 use crate::chain;
 use crate::util::*;
+use crate::oe_world::*;
 use crate::w_sale::*;
 use crate::Args;
 use serde::{Deserialize, Serialize};
@@ -105,6 +106,146 @@ struct Pre {
     kind: &'static str, // public | whitelist | airdrop
     payer: String,
     funds: Vec<(String, u128)>,
+}
+
+type Slots = BTreeMap<(String, String), i128>;
+
+/// how the fee schedule splits the network fee
+pub enum Split {
+    /// vending family: liquidity DAO 1/5 of the fee rounded up (1/8 on featured variants), launchpad DAO the rest
+    Vending { featured: bool },
+    /// open edition: developer 1/2 rounded up, then liquidity DAO 1/5 of what is left rounded up, launchpad DAO the rest
+    Oe { dev: String },
+    /// base minter: the whole amount is fair-burned: half (rounded down) burned, the rest to the fair-burn pool; no seller
+    Base,
+}
+
+pub struct MintFacts {
+    pub vname: String,
+    pub kind: &'static str,
+    pub airdrop: bool,
+    pub payer: String,
+    pub funds: Vec<(String, u128)>,
+    pub price: u128,
+    pub denom: String,
+    pub bps: u64,
+    pub seller: String,
+    pub minter: String,
+}
+
+/// The property text evaluated on one SUCCESSFUL mint: exact payment, and every balance moved as
+/// documented (payer -price, fee = floor(price*bps/10^4) to the fee recipients, the rest to the
+/// seller, minter unchanged, nothing else, supply only by the burned amount).
+pub fn judge(f: &MintFacts, split: &Split, actual: &Slots, op_dbg: &str) -> Vec<(String, String)> {
+    let mut out = vec![];
+    let exact = if f.price == 0 { f.funds.is_empty() } else { f.funds.len() == 1 && f.funds[0].0 == f.denom && f.funds[0].1 == f.price };
+    if !exact {
+        out.push((
+            format!("C02:accepted-inexact-payment:{}", f.kind),
+            format!("{}: {} mint succeeded with funds {:?} while the price in force is {} {}", f.vname, f.kind, f.funds, f.price, f.denom),
+        ));
+    }
+    let mut want: Slots = BTreeMap::new();
+    let mut add = |a: &str, x: i128| {
+        if x != 0 {
+            *want.entry((a.to_string(), f.denom.clone())).or_insert(0) += x;
+        }
+    };
+    add(&f.payer, -(f.price as i128));
+    let fee: u128;
+    let rest: i128;
+    match split {
+        Split::Vending { featured } => {
+            fee = f.price * f.bps as u128 / 10_000;
+            let div: u128 = if *featured { 8 } else { 5 };
+            let liq = (fee + div - 1) / div;
+            add(LIQUIDITY_DAO, liq as i128);
+            add(LAUNCHPAD_DAO, (fee - liq) as i128);
+            rest = f.price as i128 - fee as i128;
+            add(&f.seller, rest);
+        }
+        Split::Oe { dev } => {
+            fee = f.price * f.bps as u128 / 10_000;
+            let devp = (fee + 1) / 2;
+            let left = fee - devp;
+            let liq = (left + 4) / 5;
+            add(dev, devp as i128);
+            add(LIQUIDITY_DAO, liq as i128);
+            add(LAUNCHPAD_DAO, (left - liq) as i128);
+            rest = f.price as i128 - fee as i128;
+            add(&f.seller, rest);
+        }
+        Split::Base => {
+            fee = f.price;
+            rest = 0;
+            add("#supply", -((fee / 2) as i128));
+            add(chain::FAIRBURN_POOL, (fee - fee / 2) as i128);
+        }
+    }
+    want.retain(|_, v| *v != 0);
+    let mut diff: Slots = BTreeMap::new();
+    for k in actual.keys().chain(want.keys()) {
+        let d = actual.get(k).copied().unwrap_or(0) - want.get(k).copied().unwrap_or(0);
+        if d != 0 {
+            diff.insert(k.clone(), d);
+        }
+    }
+    if diff.is_empty() {
+        return out;
+    }
+    let slot = |a: &str| (a.to_string(), f.denom.clone());
+    // the recorded defect, and nothing else: a VENDING airdrop whose remainder price - fee > 0 stays
+    // in the minter instead of reaching the seller; every other slot exactly as documented
+    let known = matches!(split, Split::Vending { .. })
+        && f.airdrop
+        && rest > 0
+        && diff.len() == 2
+        && diff.get(&slot(&f.minter)) == Some(&rest)
+        && diff.get(&slot(&f.seller)) == Some(&(-rest));
+    if known {
+        out.push((
+            KNOWN_KEY.to_string(),
+            format!(
+                "{}: airdrop at price {} {} with airdrop fee {} bps: payer -{}, fee recipients +{}, seller +0, minter balance +{} (remainder stranded)",
+                f.vname, f.price, f.denom, f.bps, f.price, fee, rest
+            ),
+        ));
+        return out;
+    }
+    let detail = format!(
+        "{}: {} mint {} at price {} {} ({} bps, fee {}, seller {}): balance changes {:?}, documented {:?}, difference {:?}",
+        f.vname, f.kind, op_dbg, f.price, f.denom, f.bps, fee, f.seller, actual, want, diff
+    );
+    let moved_supply = diff.keys().any(|k| k.0 == "#supply");
+    let sum_accounts: i128 = actual.iter().filter(|(k, _)| k.0 != "#supply").map(|(_, v)| *v).sum();
+    let sum_supply: i128 = actual.iter().filter(|(k, _)| k.0 == "#supply").map(|(_, v)| *v).sum();
+    let is_fee_rcpt = |a: &str| a == LIQUIDITY_DAO || a == LAUNCHPAD_DAO || a == FOUNDATION || a == chain::FAIRBURN_POOL || matches!(split, Split::Oe { dev } if dev == a);
+    let key = if diff.keys().any(|k| k.0 == f.minter) {
+        format!("C02:minter-balance-changed:{}", f.kind)
+    } else if diff.keys().any(|k| k.0 == f.payer) && f.payer != f.seller {
+        format!("C02:payer-charged-wrong-amount:{}", f.kind)
+    } else if diff.keys().any(|k| is_fee_rcpt(&k.0)) {
+        format!("C02:fee-split-wrong:{}", f.kind)
+    } else if diff.keys().any(|k| k.0 == f.seller || k.0 == CREATOR || k.0 == PAYADDR) {
+        format!("C02:seller-paid-wrong:{}", f.kind)
+    } else if moved_supply || sum_accounts != sum_supply {
+        format!("C02:coins-created-or-lost:{}", f.kind)
+    } else {
+        format!("C02:unexpected-balance-change:{}", f.kind)
+    };
+    out.push((key, detail));
+    out
+}
+
+fn deltas(b0: &BTreeMap<(String, String), u128>, b1: &BTreeMap<(String, String), u128>) -> Slots {
+    let mut actual: Slots = BTreeMap::new();
+    for (k, v1) in b1 {
+        let v0 = b0.get(k).copied().unwrap_or(0);
+        if *v1 != v0 {
+            actual.insert(k.clone(), *v1 as i128 - v0 as i128);
+        }
+    }
+    actual
 }
 
 pub struct Driver {
@@ -251,82 +392,21 @@ impl Driver {
         };
         self.res.ok_mints += 1;
         self.res.distinct.insert(format!("{}|{}|{}|{}|{}|{}", self.vname, p.kind, p.price, p.denom, p.bps, self.case.payment_address));
-        // --- succeeds only if exactly the price in force was attached ---
-        let exact = if p.price == 0 { p.funds.is_empty() } else { p.funds.len() == 1 && p.funds[0].0 == p.denom && p.funds[0].1 == p.price };
-        if !exact {
-            self.violation(
-                &format!("C02:accepted-inexact-payment:{}", p.kind),
-                format!("{}: {} mint succeeded with funds {:?} while the price in force is {} {}", self.vname, p.kind, p.funds, p.price, p.denom),
-            );
-        }
-        // --- expected movements, from the property text ---
-        let fee: u128 = p.price * p.bps as u128 / 10_000;
-        let div: u128 = if self.featured { 8 } else { 5 };
-        let liq: u128 = (fee + div - 1) / div; // liquidity DAO: 1/5 (featured 1/8) of the fee, rounded up
-        let lp: u128 = fee.saturating_sub(liq);
-        let rest: i128 = p.price as i128 - fee as i128;
-        let mut want: BTreeMap<(String, String), i128> = BTreeMap::new();
-        let mut add = |a: &str, x: i128| {
-            if x != 0 {
-                *want.entry((a.to_string(), p.denom.clone())).or_insert(0) += x;
-            }
+        let facts = MintFacts {
+            vname: self.vname.to_string(),
+            kind: p.kind,
+            airdrop: p.airdrop,
+            payer: p.payer.clone(),
+            funds: p.funds.clone(),
+            price: p.price,
+            denom: p.denom.clone(),
+            bps: p.bps,
+            seller: self.seller.clone(),
+            minter: self.w.minter.to_string(),
         };
-        add(&p.payer, -(p.price as i128));
-        add(LIQUIDITY_DAO, liq as i128);
-        add(LAUNCHPAD_DAO, lp as i128);
-        add(&self.seller, rest);
-        want.retain(|_, v| *v != 0);
-        // difference actual - expected on every slot
-        let mut diff: BTreeMap<(String, String), i128> = BTreeMap::new();
-        for k in actual.keys().chain(want.keys()) {
-            let d = actual.get(k).copied().unwrap_or(0) - want.get(k).copied().unwrap_or(0);
-            if d != 0 {
-                diff.insert(k.clone(), d);
-            }
+        for (k, w) in judge(&facts, &Split::Vending { featured: self.featured }, &actual, &format!("{:?}", op)) {
+            self.violation(&k, w);
         }
-        if diff.is_empty() {
-            return true;
-        }
-        let minter = self.w.minter.to_string();
-        let slot = |a: &str| (a.to_string(), p.denom.clone());
-        // the recorded defect, and nothing else: a vending airdrop whose remainder price - fee > 0
-        // stays in the minter instead of reaching the seller; every other slot as documented
-        let known = p.airdrop
-            && rest > 0
-            && diff.len() == 2
-            && diff.get(&slot(&minter)) == Some(&rest)
-            && diff.get(&slot(&self.seller)) == Some(&(-rest));
-        if known {
-            self.violation(
-                KNOWN_KEY,
-                format!(
-                    "{}: airdrop at price {} {} with airdrop fee {} bps: payer -{}, fee recipients +{}, seller +0, minter balance +{} (remainder stranded)",
-                    self.vname, p.price, p.denom, p.bps, p.price, fee, rest
-                ),
-            );
-            return true;
-        }
-        let detail = format!(
-            "{}: {} mint {:?} at price {} {} ({} bps, fee {}, seller {}): balance changes {:?}, documented {:?}, difference {:?}",
-            self.vname, p.kind, op, p.price, p.denom, p.bps, fee, self.seller, actual, want, diff
-        );
-        let moved_supply = diff.keys().any(|k| k.0 == "#supply");
-        let sum_accounts: i128 = actual.iter().filter(|(k, _)| k.0 != "#supply").map(|(_, v)| *v).sum();
-        let sum_supply: i128 = actual.iter().filter(|(k, _)| k.0 == "#supply").map(|(_, v)| *v).sum();
-        let key = if diff.contains_key(&slot(&minter)) || diff.keys().any(|k| k.0 == minter) {
-            format!("C02:minter-balance-changed:{}", p.kind)
-        } else if diff.keys().any(|k| k.0 == p.payer) && p.payer != self.seller {
-            format!("C02:payer-charged-wrong-amount:{}", p.kind)
-        } else if diff.keys().any(|k| k.0 == LIQUIDITY_DAO || k.0 == LAUNCHPAD_DAO || k.0 == FOUNDATION || k.0 == chain::FAIRBURN_POOL) {
-            format!("C02:fee-split-wrong:{}", p.kind)
-        } else if diff.keys().any(|k| k.0 == self.seller || k.0 == CREATOR || k.0 == PAYADDR) {
-            format!("C02:seller-paid-wrong:{}", p.kind)
-        } else if moved_supply || sum_accounts != sum_supply {
-            format!("C02:coins-created-or-lost:{}", p.kind)
-        } else {
-            format!("C02:unexpected-balance-change:{}", p.kind)
-        };
-        self.violation(&key, detail);
         true
     }
 
@@ -794,33 +874,674 @@ fn shrink(c: &Case, key: &str, at: usize) -> Case {
     best
 }
 
+// =====================================================================================
+// Part 2: the three open-edition minters and the base minter (oe_world.rs, SaleOeCorr.v).
+// Same monitors; the documented split differs (developer share; fair burn on the base
+// minter) and the seller is paid on airdrops too, so there is no known class here.
+// =====================================================================================
+#[derive(Clone, Debug, Serialize, Deserialize)]
+pub enum Case2 {
+    Oe { cfg: OeCfg, ops: Vec<OeOp> },
+    Base { cfg: BaseCfg, ops: Vec<OeOp> },
+}
+
+fn new_result() -> CaseResult {
+    CaseResult { coq: None, steps: 0, ok_mints: 0, violations: vec![], hist: BTreeMap::new(), distinct: BTreeSet::new() }
+}
+
+pub struct OeDriver {
+    pub w: OeWorld,
+    pub ops: Vec<OeOp>,
+    vname: &'static str,
+    seller: String,
+    init: String,
+    init_bal: String,
+    steps: Vec<String>,
+    pub res: CaseResult,
+}
+
+impl OeDriver {
+    pub fn new(cfg: &OeCfg) -> Result<OeDriver, String> {
+        let mut w = OeWorld::new(cfg.clone())?;
+        for a in [CREATOR, BUYERS[0], BUYERS[1], BUYERS[2], STRANGER] {
+            for d in [NATIVE, IBC] {
+                chain::mint_coins(&mut w.app, a, FUND, d);
+            }
+        }
+        for d in [NATIVE, IBC] {
+            w.initial_supply.insert(d.to_string(), chain::supply(&w.app, d));
+        }
+        let init = w.init_state_coq();
+        let init_bal = w.balances_coq();
+        let vname = OE_VARIANTS[cfg.variant].name;
+        Ok(OeDriver { w, ops: vec![], vname, seller: if cfg.payment_address { PAYADDR.into() } else { CREATOR.into() }, init, init_bal, steps: vec![], res: new_result() })
+    }
+    pub fn price_in_force(&self, airdrop: bool) -> Option<(u128, String)> {
+        if airdrop {
+            amount_of(&self.w.factory_params()["extension"]["airdrop_mint_price"])
+        } else {
+            let mp = self.w.app.wrap().query_wasm_smart::<Value>(self.w.minter.clone(), &serde_json::json!({"mint_price": {}})).ok()?;
+            amount_of(&mp["current_price"])
+        }
+    }
+    fn whitelist_active(&self) -> bool {
+        match self.w.minter_config()["whitelist"].as_str() {
+            Some(a) => self
+                .w
+                .app
+                .wrap()
+                .query_wasm_smart::<Value>(a.to_string(), &serde_json::json!({"config": {}}))
+                .ok()
+                .and_then(|v| v["is_active"].as_bool())
+                .unwrap_or(false),
+            None => false,
+        }
+    }
+    fn violation(&mut self, key: &str, what: String) {
+        if self.res.violations.len() < 8 {
+            let at = self.ops.len() - 1;
+            self.res.violations.push((key.to_string(), what, at));
+        }
+    }
+    pub fn step(&mut self, op: &OeOp) -> bool {
+        self.ops.push(op.clone());
+        let mint = match op {
+            OeOp::Mint { who, funds } | OeOp::MintM { who, funds, .. } => Some((false, who.clone(), funds.clone())),
+            OeOp::MintTo { who, funds, .. } => Some((true, who.clone(), funds.clone())),
+            _ => None,
+        };
+        let pre = mint.as_ref().and_then(|(airdrop, _, _)| {
+            let (price, denom) = self.price_in_force(*airdrop)?;
+            let fp = self.w.factory_params();
+            let bps = if *airdrop { fp["extension"]["airdrop_mint_fee_bps"].as_u64()? } else { fp["mint_fee_bps"].as_u64()? };
+            let dev = fp["extension"]["dev_fee_address"].as_str()?.to_string();
+            let kind = if *airdrop {
+                "airdrop"
+            } else if self.whitelist_active() {
+                "whitelist"
+            } else {
+                "public"
+            };
+            Some((price, denom, bps, dev, kind))
+        });
+        let bal0 = self.w.balances_raw();
+        let out = self.w.run(op);
+        if !out.is_minter_step {
+            *self.res.hist.entry(format!("{}:{}:{}", self.vname, oe_op_kind(op), if out.ok { "ok" } else { "err" })).or_insert(0) += 1;
+            return out.ok;
+        }
+        let bal1 = self.w.balances_raw();
+        self.res.steps += 1;
+        let kind = pre.as_ref().map(|p| p.4).unwrap_or("-");
+        *self.res.hist.entry(format!("{}:{}:{}:{}", self.vname, oe_op_kind(op), kind, if out.ok { "ok" } else { "err" })).or_insert(0) += 1;
+        if let Some(s) = out.coq {
+            self.steps.push(s);
+        }
+        let actual = deltas(&bal0, &bal1);
+        if !out.ok {
+            if !actual.is_empty() {
+                self.violation("C02:failed-call-moved-funds", format!("{}: {:?} failed but balances moved: {:?}", self.vname, op, actual));
+            }
+            if let Some(e) = &out.err {
+                if e.starts_with("STATE-CHANGED-ON-FAILURE") {
+                    self.violation("C02:failed-call-changed-state", format!("{}: {:?}: {}", self.vname, op, e));
+                }
+            }
+            return false;
+        }
+        let Some((airdrop, payer, funds)) = mint else { return true };
+        let Some((price, denom, bps, dev, kind)) = pre else {
+            self.violation("C02:mint-without-price", format!("{}: {:?} succeeded although the price in force could not be queried", self.vname, op));
+            return true;
+        };
+        self.res.ok_mints += 1;
+        self.res.distinct.insert(format!("{}|{}|{}|{}|{}|{}", self.vname, kind, price, denom, bps, self.seller));
+        let facts = MintFacts { vname: self.vname.to_string(), kind, airdrop, payer, funds, price, denom, bps, seller: self.seller.clone(), minter: self.w.minter.to_string() };
+        for (k, w) in judge(&facts, &Split::Oe { dev }, &actual, &format!("{:?}", op)) {
+            self.violation(&k, w);
+        }
+        true
+    }
+    pub fn finish(mut self) -> (Vec<OeOp>, CaseResult) {
+        let coq = self.w.case_coq(&self.init, &self.init_bal, &self.steps);
+        self.res.coq = Some(coq);
+        (self.ops, self.res)
+    }
+}
+
+pub struct BaseDriver {
+    pub w: BaseWorld,
+    pub ops: Vec<OeOp>,
+    init: String,
+    init_bal: String,
+    steps: Vec<String>,
+    pub res: CaseResult,
+}
+impl BaseDriver {
+    pub fn new(cfg: &BaseCfg) -> Result<BaseDriver, String> {
+        let mut w = BaseWorld::new(cfg.clone())?;
+        for a in [CREATOR, BUYERS[0], STRANGER] {
+            chain::mint_coins(&mut w.app, a, FUND, NATIVE);
+            chain::mint_coins(&mut w.app, a, FUND, IBC);
+        }
+        for d in [NATIVE, IBC] {
+            w.initial_supply.insert(d.to_string(), chain::supply(&w.app, d));
+        }
+        let init = w.init_state_coq();
+        let init_bal = w.balances_coq();
+        Ok(BaseDriver { w, ops: vec![], init, init_bal, steps: vec![], res: new_result() })
+    }
+    /// the amount in force: floor(config mint price * factory mint_fee_bps / 10000) ustars
+    pub fn price_in_force(&self) -> u128 {
+        self.w.config_price() * self.w.fee_bps() as u128 / 10_000
+    }
+    fn violation(&mut self, key: &str, what: String) {
+        if self.res.violations.len() < 8 {
+            let at = self.ops.len() - 1;
+            self.res.violations.push((key.to_string(), what, at));
+        }
+    }
+    pub fn step(&mut self, op: &OeOp) -> bool {
+        self.ops.push(op.clone());
+        let price = self.price_in_force();
+        let bps = self.w.fee_bps();
+        let bal0 = self.w.balances_raw();
+        let out = self.w.run(op);
+        if !out.is_minter_step {
+            *self.res.hist.entry(format!("base-minter:{}:{}", oe_op_kind(op), if out.ok { "ok" } else { "err" })).or_insert(0) += 1;
+            return out.ok;
+        }
+        let bal1 = self.w.balances_raw();
+        self.res.steps += 1;
+        *self.res.hist.entry(format!("base-minter:{}:{}", oe_op_kind(op), if out.ok { "ok" } else { "err" })).or_insert(0) += 1;
+        if let Some(s) = out.coq {
+            self.steps.push(s);
+        }
+        let actual = deltas(&bal0, &bal1);
+        if !out.ok {
+            if !actual.is_empty() {
+                self.violation("C02:failed-call-moved-funds", format!("base-minter: {:?} failed but balances moved: {:?}", op, actual));
+            }
+            return false;
+        }
+        if let OeOp::BaseMint { who, funds, .. } = op {
+            self.res.ok_mints += 1;
+            self.res.distinct.insert(format!("base-minter|{}|{}", price, bps));
+            let facts = MintFacts {
+                vname: "base-minter".into(),
+                kind: "base",
+                airdrop: false,
+                payer: who.clone(),
+                funds: funds.clone(),
+                price,
+                denom: NATIVE.into(),
+                bps,
+                seller: who.clone(),
+                minter: self.w.minter.to_string(),
+            };
+            // a base mint is never free: a zero amount in force must make the mint fail
+            if price == 0 {
+                self.violation("C02:base-mint-at-zero-fee", format!("base-minter: {:?} succeeded although the amount in force is 0", op));
+            }
+            for (k, w) in judge(&facts, &Split::Base, &actual, &format!("{:?}", op)) {
+                self.violation(&k, w);
+            }
+        }
+        true
+    }
+    pub fn finish(mut self) -> (Vec<OeOp>, CaseResult) {
+        let coq = self.w.case_coq(&self.init, &self.init_bal, &self.steps);
+        self.res.coq = Some(coq);
+        (self.ops, self.res)
+    }
+}
+
+pub fn run_case2(c: &Case2) -> CaseResult {
+    match c {
+        Case2::Oe { cfg, ops } => match OeDriver::new(cfg) {
+            Ok(mut d) => {
+                for op in ops {
+                    d.step(op);
+                }
+                d.finish().1
+            }
+            Err(_) => {
+                let mut r = new_result();
+                *r.hist.entry(format!("{}:create:err", OE_VARIANTS[cfg.variant].name)).or_insert(0) += 1;
+                r
+            }
+        },
+        Case2::Base { cfg, ops } => match BaseDriver::new(cfg) {
+            Ok(mut d) => {
+                for op in ops {
+                    d.step(op);
+                }
+                d.finish().1
+            }
+            Err(_) => {
+                let mut r = new_result();
+                *r.hist.entry("base-minter:create:err".to_string()).or_insert(0) += 1;
+                r
+            }
+        },
+    }
+}
+
+fn oe_sudo(mint_fee_bps: Option<u64>, airdrop_price: Option<u128>, airdrop_fee_bps: Option<u64>) -> OeOp {
+    OeOp::SudoParams { min_price: None, mint_fee_bps, airdrop_price, airdrop_fee_bps, offset: None, max_pal: None, max_token_limit: None, dev: None }
+}
+
+fn oe_sweep(d: &mut OeDriver, rng: &mut Rng, airdrop: bool, who: &str, n_wrong: usize, do_exact: bool) {
+    let Some((price, dn)) = d.price_in_force(airdrop) else { return };
+    let mk = |rng: &mut Rng, funds: Vec<(String, u128)>| -> OeOp {
+        if airdrop {
+            OeOp::MintTo { who: who.into(), recipient: (*rng.pick(&[BUYERS[0], BUYERS[1], STRANGER])).into(), funds }
+        } else {
+            OeOp::Mint { who: who.into(), funds }
+        }
+    };
+    let wrong = wrong_payments(price, &dn);
+    for _ in 0..n_wrong {
+        let f = rng.pick(&wrong).clone();
+        let op = mk(rng, f);
+        d.step(&op);
+    }
+    if do_exact {
+        let op = mk(rng, exact_payment(price, &dn));
+        d.step(&op);
+    }
+}
+
+fn oe_cfg(variant: usize) -> OeCfg {
+    let v = OE_VARIANTS[variant];
+    let mut cfg = OeCfg::basic(variant);
+    cfg.fp.max_per_address = 50;
+    cfg.fp.max_token_limit = 200;
+    cfg.num_tokens = Some(60);
+    cfg.end_in_secs = Some(400_000);
+    cfg.pal = 20;
+    cfg.start_in_secs = 3000;
+    cfg.wl_windows = vec![(1000, 2000)];
+    cfg.wl_limit = 20;
+    cfg.wl_flex_count = 20;
+    cfg.wl = OeWl::None;
+    let _ = v;
+    cfg
+}
+fn oe_wl_kind(variant: usize) -> OeWl {
+    let v = OE_VARIANTS[variant];
+    if v.flex {
+        OeWl::Flex
+    } else if v.merkle {
+        OeWl::Merkle
+    } else {
+        OeWl::Plain
+    }
+}
+
+fn gen_oe(rng: &mut Rng, variant: usize, thorough: bool, lits: &[u128]) -> (Case2, CaseResult) {
+    let mut cfg = oe_cfg(variant);
+    let capped = rng.chance(2, 3);
+    let min_price = *rng.pick(&[0u128, 1, 50, 50, 9999, 10000, 100_000_000, BIG - 1]);
+    let pool = price_pool(min_price, lits);
+    let base: Vec<u128> = vec![min_price, min_price + 1, 9999, 10000, 10001, 100_000_001, BIG].into_iter().filter(|p| *p >= min_price).collect();
+    let mut price = if rng.chance(3, 4) { *rng.pick(&base) } else { *rng.pick(&pool) };
+    let mut airdrop_price = *rng.pick(&[0u128, 1, 40, 100, 9999, 10001, 100_000_001, BIG]);
+    if !capped {
+        // an uncapped open edition cannot be free
+        cfg.num_tokens = None;
+        price = price.max(1);
+        airdrop_price = airdrop_price.max(1);
+    }
+    cfg.fp.min_price = min_price;
+    cfg.fp.denom = if rng.chance(1, 3) { IBC.into() } else { NATIVE.into() };
+    cfg.fp.mint_fee_bps = *rng.pick(&bps_pool());
+    cfg.fp.airdrop_price = airdrop_price;
+    cfg.fp.airdrop_fee_bps = *rng.pick(&bps_pool());
+    cfg.price = price;
+    cfg.payment_address = rng.chance(1, 2);
+    let wl = rng.chance(2, 5);
+    if wl {
+        cfg.wl = oe_wl_kind(variant);
+        cfg.wl_price = *rng.pick(&[0u128, 1, min_price, price.saturating_sub(1).max(1), 60, 10001, BIG]);
+    }
+    let mut d = match OeDriver::new(&cfg) {
+        Ok(d) => d,
+        Err(_) => {
+            let c = Case2::Oe { cfg, ops: vec![] };
+            let r = run_case2(&c);
+            return (c, r);
+        }
+    };
+    let h13 = 13 * 3600;
+    let phases: [(u64, &str); 4] = [(500, "pre"), (1500, "wl"), (3100, "public"), (3100 + h13, "late")];
+    let rounds = if thorough { 3 } else { 2 };
+    for (secs, phase) in phases {
+        d.step(&OeOp::At { secs, nanos: rng.below(1000) as i64 });
+        let started = phase == "public" || phase == "late";
+        for _ in 0..rounds {
+            if rng.chance(2, 5) {
+                let floor = if capped { 0u128 } else { 1 };
+                d.step(&oe_sudo(
+                    if rng.chance(1, 2) { Some(*rng.pick(&bps_pool())) } else { None },
+                    if rng.chance(1, 2) { Some((*rng.pick(&[0u128, 1, 100, 9999, 10001, 100_000_001, BIG])).max(floor)) } else { None },
+                    if rng.chance(1, 2) { Some(*rng.pick(&bps_pool())) } else { None },
+                ));
+            }
+            if rng.chance(1, 4) {
+                let cur: u128 = d.w.minter_config()["mint_price"]["amount"].as_str().unwrap().parse().unwrap();
+                let p = if started {
+                    if cur > min_price { *rng.pick(&[cur - 1, min_price, min_price + (cur - min_price) / 2]) } else { cur }
+                } else {
+                    *rng.pick(&pool)
+                };
+                d.step(&OeOp::UpdateMintPrice { who: CREATOR.into(), price: p });
+            }
+            let airdrop = if started || (phase == "wl" && wl) { rng.chance(1, 3) } else { rng.chance(4, 5) };
+            let who: &str = if airdrop {
+                if rng.chance(11, 12) { CREATOR } else { BUYERS[0] }
+            } else if phase == "wl" && wl {
+                *rng.pick(&[BUYERS[0], BUYERS[1], BUYERS[0], BUYERS[1], STRANGER])
+            } else {
+                *rng.pick(&[BUYERS[0], BUYERS[1], BUYERS[2], STRANGER, CREATOR])
+            };
+            let n_wrong = rng.range(1, 3) as usize;
+            let do_exact = rng.chance(9, 10);
+            oe_sweep(&mut d, rng, airdrop, who, n_wrong, do_exact);
+        }
+    }
+    let (ops, r) = d.finish();
+    (Case2::Oe { cfg, ops }, r)
+}
+
+const URI: &str = "ipfs://bafybeigi3bwpvyvsmnbj46ra4hyffcxdeaj6ntfk5jpic5mx27x6ih2qvq/1.json";
+
+fn base_sweep(d: &mut BaseDriver, rng: &mut Rng, who: &str, n_wrong: usize, do_exact: bool) {
+    let fee = d.price_in_force();
+    let wrong = wrong_payments(fee, NATIVE);
+    for _ in 0..n_wrong {
+        let f = rng.pick(&wrong).clone();
+        d.step(&OeOp::BaseMint { who: who.into(), uri: URI.into(), funds: f });
+    }
+    if do_exact {
+        d.step(&OeOp::BaseMint { who: who.into(), uri: URI.into(), funds: exact_payment(fee, NATIVE) });
+    }
+}
+
+fn gen_base(rng: &mut Rng, thorough: bool) -> (Case2, CaseResult) {
+    let cfg = BaseCfg {
+        min_price: *rng.pick(&[0u128, 1, 3, 1000, 9999, 10000, 10001, 100_000_001, BIG]),
+        mint_fee_bps: *rng.pick(&bps_pool()),
+        ..BaseCfg::default()
+    };
+    let mut d = match BaseDriver::new(&cfg) {
+        Ok(d) => d,
+        Err(_) => {
+            let c = Case2::Base { cfg, ops: vec![] };
+            let r = run_case2(&c);
+            return (c, r);
+        }
+    };
+    let rounds = if thorough { 8 } else { 5 };
+    for k in 0..rounds {
+        d.step(&OeOp::At { secs: 100 + k as u64, nanos: 0 });
+        if rng.chance(1, 2) {
+            d.step(&OeOp::BaseSudoParams {
+                min_price: if rng.chance(1, 3) { Some(*rng.pick(&[1u128, 500, 10001])) } else { None },
+                mint_fee_bps: Some(*rng.pick(&[0u64, 1, 2, 3, 20, 3333, 9999, 10000, 1000, 5000])),
+            });
+        }
+        let who = if rng.chance(9, 10) { CREATOR } else { STRANGER };
+        let nw = rng.range(1, 3) as usize;
+        let ex = rng.chance(9, 10);
+        base_sweep(&mut d, rng, who, nw, ex);
+    }
+    let (ops, r) = d.finish();
+    (Case2::Base { cfg, ops }, r)
+}
+
+/// curated open-edition / base histories
+fn corpus2() -> Vec<Case2> {
+    let mut v = vec![];
+    let omint = |who: &str, funds: Vec<(String, u128)>| OeOp::Mint { who: who.into(), funds };
+    let omint_to = |who: &str, funds: Vec<(String, u128)>| OeOp::MintTo { who: who.into(), recipient: BUYERS[2].into(), funds };
+    for variant in 0..3 {
+        // the history that strands coins on the vending family pays the seller here:
+        // airdrop price 100, airdrop fee 50 %: developer 25, DAOs 5 + 20, seller 50, minter 0
+        let mut cfg = oe_cfg(variant);
+        cfg.fp.airdrop_price = 100;
+        cfg.fp.airdrop_fee_bps = 5000;
+        cfg.payment_address = true;
+        v.push(Case2::Oe {
+            cfg,
+            ops: vec![
+                omint_to(CREATOR, n(100)),
+                omint_to(CREATOR, n(99)),
+                omint_to(CREATOR, n(101)),
+                omint_to(CREATOR, i(100)),
+                omint_to(CREATOR, vec![]),
+                omint_to(BUYERS[0], n(100)),
+                OeOp::At { secs: 3100, nanos: 0 },
+                omint(BUYERS[0], n(100)),
+                omint(BUYERS[0], n(101)),
+                omint(BUYERS[0], n(99)),
+                omint(BUYERS[0], sorted(vec![(NATIVE.to_string(), 100), (IBC.to_string(), 1)])),
+                omint(CREATOR, n(100)),
+            ],
+        });
+        // fee boundaries: 0, 1..3 (a zero DAO share makes the bank reject the mint), 4, = price
+        let mut cfg = oe_cfg(variant);
+        cfg.price = 10000;
+        v.push(Case2::Oe {
+            cfg,
+            ops: {
+                let mut o = vec![OeOp::At { secs: 3100, nanos: 0 }];
+                for bps in [0u64, 1, 2, 3, 4, 5, 3333, 9999, 10000] {
+                    o.push(oe_sudo(Some(bps), None, None));
+                    o.push(omint(BUYERS[(bps % 3) as usize], n(10000)));
+                }
+                o.push(omint(BUYERS[0], n(9999)));
+                o.push(omint(BUYERS[0], n(10001)));
+                o
+            },
+        });
+        // whitelist price then public price; zero whitelist price; IBC denom
+        let mut cfg = oe_cfg(variant);
+        cfg.wl = oe_wl_kind(variant);
+        cfg.wl_price = 60;
+        cfg.fp.denom = IBC.into();
+        cfg.payment_address = variant == 1;
+        v.push(Case2::Oe {
+            cfg,
+            ops: vec![
+                OeOp::At { secs: 1500, nanos: 0 },
+                omint(BUYERS[0], i(100)),
+                omint(BUYERS[0], n(60)),
+                omint(BUYERS[0], i(59)),
+                omint(BUYERS[0], i(60)),
+                omint(STRANGER, i(60)),
+                OeOp::At { secs: 3100, nanos: 0 },
+                omint(BUYERS[0], i(60)),
+                omint(BUYERS[0], n(100)),
+                omint(BUYERS[0], i(100)),
+                omint_to(CREATOR, n(40)),
+                omint_to(CREATOR, i(40)),
+            ],
+        });
+        // free capped edition
+        let mut cfg = oe_cfg(variant);
+        cfg.fp.min_price = 0;
+        cfg.price = 0;
+        cfg.fp.airdrop_price = 0;
+        v.push(Case2::Oe {
+            cfg,
+            ops: vec![
+                OeOp::At { secs: 3100, nanos: 0 },
+                omint(BUYERS[0], n(1)),
+                omint(BUYERS[0], vec![]),
+                omint_to(CREATOR, n(1)),
+                omint_to(CREATOR, vec![]),
+            ],
+        });
+        // very large price
+        let mut cfg = oe_cfg(variant);
+        cfg.fp.min_price = BIG - 1;
+        cfg.price = BIG;
+        cfg.fp.mint_fee_bps = 3333;
+        cfg.fp.airdrop_price = BIG;
+        cfg.fp.airdrop_fee_bps = 9999;
+        v.push(Case2::Oe {
+            cfg,
+            ops: vec![
+                OeOp::At { secs: 3100, nanos: 0 },
+                omint(BUYERS[0], n(BIG - 1)),
+                omint(BUYERS[0], n(BIG)),
+                omint_to(CREATOR, n(BIG + 1)),
+                omint_to(CREATOR, n(BIG)),
+            ],
+        });
+    }
+    // base minter: amounts 0 (never mintable), 1 (burn share 0: rejected), 2, odd, large
+    let bm = |funds: Vec<(String, u128)>| OeOp::BaseMint { who: CREATOR.into(), uri: URI.into(), funds };
+    let bs = |bps: u64| OeOp::BaseSudoParams { min_price: None, mint_fee_bps: Some(bps) };
+    v.push(Case2::Base {
+        cfg: BaseCfg { min_price: 10000, mint_fee_bps: 0, ..BaseCfg::default() },
+        ops: vec![
+            bm(vec![]),
+            bm(n(1)),
+            bs(1),
+            bm(n(1)),
+            bm(vec![]),
+            bs(2),
+            bm(n(1)),
+            bm(n(3)),
+            bm(i(2)),
+            bm(n(2)),
+            bs(3),
+            bm(n(3)),
+            bs(10000),
+            bm(n(9999)),
+            bm(n(10001)),
+            bm(sorted(vec![(NATIVE.to_string(), 10000), (IBC.to_string(), 1)])),
+            bm(n(10000)),
+            OeOp::BaseMint { who: STRANGER.into(), uri: URI.into(), funds: n(10000) },
+            // the factory's minimum moves: the amount in force stays tied to the price stored at creation
+            OeOp::BaseSudoParams { min_price: Some(500), mint_fee_bps: Some(5000) },
+            bm(n(250)),
+            bm(n(5000)),
+        ],
+    });
+    v.push(Case2::Base {
+        cfg: BaseCfg { min_price: BIG, mint_fee_bps: 3333, ..BaseCfg::default() },
+        ops: vec![bm(n(BIG * 3333 / 10000 - 1)), bm(n(BIG * 3333 / 10000 + 1)), bm(n(BIG * 3333 / 10000))],
+    });
+    v
+}
+
+fn shrink2(c: &Case2, key: &str, at: usize) -> Case2 {
+    let with_ops = |ops: Vec<OeOp>| match c {
+        Case2::Oe { cfg, .. } => Case2::Oe { cfg: cfg.clone(), ops },
+        Case2::Base { cfg, .. } => Case2::Base { cfg: cfg.clone(), ops },
+    };
+    let all: &Vec<OeOp> = match c {
+        Case2::Oe { ops, .. } | Case2::Base { ops, .. } => ops,
+    };
+    let shows = |ops: &Vec<OeOp>| run_case2(&with_ops(ops.clone())).violations.iter().any(|v| v.0 == key);
+    let mut best: Vec<OeOp> = all[..=at.min(all.len() - 1)].to_vec();
+    if !shows(&best) {
+        return c.clone();
+    }
+    let mut budget = 60;
+    let mut k = 0;
+    while k + 1 < best.len() && budget > 0 {
+        let mut cand = best.clone();
+        cand.remove(k);
+        budget -= 1;
+        if shows(&cand) {
+            best = cand;
+        } else {
+            k += 1;
+        }
+    }
+    with_ops(best)
+}
+
+/// order the cases so that every block of `ceil(n/shards)` cases has about the same text size
+/// (write_cases cuts the list into equal counts)
+fn balance_shards(coq_cases: &mut Vec<String>, shards: usize) {
+    if coq_cases.is_empty() {
+        return;
+    }
+    let per = (coq_cases.len() + shards - 1) / shards;
+    let mut order: Vec<usize> = (0..coq_cases.len()).collect();
+    order.sort_by_key(|i| std::cmp::Reverse(coq_cases[*i].len()));
+    let mut buckets: Vec<(usize, Vec<usize>)> = vec![(0, vec![]); shards];
+    for i in order {
+        let b = buckets.iter_mut().filter(|b| b.1.len() < per).min_by_key(|b| b.0).unwrap();
+        b.0 += coq_cases[i].len();
+        b.1.push(i);
+    }
+    let idx: Vec<usize> = buckets.into_iter().flat_map(|b| b.1).collect();
+    let taken: Vec<String> = idx.into_iter().map(|i| std::mem::take(&mut coq_cases[i])).collect();
+    *coq_cases = taken;
+}
+
+enum AnyCase {
+    V(Case),
+    O(Case2),
+}
+
 pub fn run(a: &Args) {
     let out = OutDir::new(&a.out);
     let mut rep = Report { property: "C02".into(), tier: a.tier.clone(), seed: a.seed, ..Default::default() };
-    let mut results: Vec<(Case, CaseResult)> = vec![];
+    let mut results: Vec<(AnyCase, CaseResult)> = vec![];
     if let Some(p) = &a.replay {
         #[derive(Deserialize)]
         struct ReplayFile {
-            case: Case,
+            case: Option<Case>,
+            case2: Option<Case2>,
         }
         let rf: ReplayFile = serde_json::from_str(&std::fs::read_to_string(p).expect("replay file")).expect("replay json");
-        let r = run_case(&rf.case);
-        results.push((rf.case, r));
+        if let Some(c) = rf.case {
+            let r = run_case(&c);
+            results.push((AnyCase::V(c), r));
+        }
+        if let Some(c) = rf.case2 {
+            let r = run_case2(&c);
+            results.push((AnyCase::O(c), r));
+        }
     } else {
         let mut rng = Rng::new(a.seed);
         for c in corpus() {
             let r = run_case(&c);
-            results.push((c, r));
+            results.push((AnyCase::V(c), r));
+        }
+        for c in corpus2() {
+            let r = run_case2(&c);
+            results.push((AnyCase::O(c), r));
         }
         let lits = literals();
-        let per_variant = if a.thorough() { 120 } else { 15 };
+        let per_variant = if a.thorough() { 120 } else { 11 };
         for _ in 0..per_variant {
             for variant in 0..6 {
-                results.push(gen_case(&mut rng, variant, a.thorough(), &lits));
+                let (c, r) = gen_case(&mut rng, variant, a.thorough(), &lits);
+                results.push((AnyCase::V(c), r));
             }
+        }
+        let per_oe = if a.thorough() { 100 } else { 8 };
+        for _ in 0..per_oe {
+            for variant in 0..3 {
+                let (c, r) = gen_oe(&mut rng, variant, a.thorough(), &lits);
+                results.push((AnyCase::O(c), r));
+            }
+        }
+        for _ in 0..(if a.thorough() { 80 } else { 8 }) {
+            let (c, r) = gen_base(&mut rng, a.thorough());
+            results.push((AnyCase::O(c), r));
         }
     }
     let mut coq_cases = vec![];
+    let mut coq_cases2 = vec![];
     let mut nviol = 0;
     let mut distinct: BTreeSet<String> = BTreeSet::new();
     let mut seen_keys: BTreeMap<String, u32> = BTreeMap::new();
@@ -834,50 +1555,62 @@ pub fn run(a: &Args) {
         for (key, what, at) in r.violations.iter() {
             let seen = seen_keys.entry(key.clone()).or_insert(0);
             *seen += 1;
-            // one replay per key for the recorded finding, up to three for anything else
+            // one replay for the recorded finding, up to three per key for anything else
             if *seen > if key == KNOWN_KEY { 1 } else { 3 } || nviol >= 20 {
                 continue;
             }
             nviol += 1;
-            let small = if a.replay.is_some() { c.clone() } else { shrink(&c, key, *at) };
+            let case_json = match &c {
+                AnyCase::V(c) => {
+                    let small = if a.replay.is_some() { c.clone() } else { shrink(c, key, *at) };
+                    format!("\"case\": {}", serde_json::to_string(&small).unwrap())
+                }
+                AnyCase::O(c) => {
+                    let small = if a.replay.is_some() { c.clone() } else { shrink2(c, key, *at) };
+                    format!("\"case2\": {}", serde_json::to_string(&small).unwrap())
+                }
+            };
             let body = format!(
-                "{{\n \"property\": \"C02\",\n \"key\": {},\n \"case\": {},\n \"violation\": {}\n}}\n",
+                "{{\n \"property\": \"C02\",\n \"key\": {},\n {},\n \"violation\": {}\n}}\n",
                 serde_json::to_string(key).unwrap(),
-                serde_json::to_string(&small).unwrap(),
+                case_json,
                 serde_json::to_string(what).unwrap()
             );
             let path = out.write_replay(&format!("C02-{}.json", nviol), &body);
             rep.violations.push(Violation { key: key.clone(), what: what.clone(), replay: path });
         }
-        if rep.samples.len() < 3 && (idx % 41 == 7 || a.replay.is_some()) {
-            rep.samples.push(serde_json::json!({"variant": VARIANTS[c.variant].name, "ibc": c.ibc, "price": c.price.to_string(),
-                "mint_fee_bps": c.mint_fee_bps, "airdrop_price": c.airdrop_price.to_string(), "airdrop_fee_bps": c.airdrop_fee_bps,
-                "payment_address": c.payment_address, "whitelist": c.wl,
-                "first_ops": c.ops.iter().take(8).map(|o| format!("{:?}", o)).collect::<Vec<_>>(), "steps": r.steps, "ok_mints": r.ok_mints}));
+        if rep.samples.len() < 3 && (idx % 61 == 7 || a.replay.is_some()) {
+            match &c {
+                AnyCase::V(c) => rep.samples.push(serde_json::json!({"variant": VARIANTS[c.variant].name, "ibc": c.ibc, "price": c.price.to_string(),
+                    "mint_fee_bps": c.mint_fee_bps, "airdrop_price": c.airdrop_price.to_string(), "airdrop_fee_bps": c.airdrop_fee_bps,
+                    "payment_address": c.payment_address, "whitelist": c.wl,
+                    "first_ops": c.ops.iter().take(8).map(|o| format!("{:?}", o)).collect::<Vec<_>>(), "steps": r.steps, "ok_mints": r.ok_mints})),
+                AnyCase::O(Case2::Oe { cfg, ops }) => rep.samples.push(serde_json::json!({"variant": OE_VARIANTS[cfg.variant].name, "denom": cfg.fp.denom,
+                    "price": cfg.price.to_string(), "mint_fee_bps": cfg.fp.mint_fee_bps, "airdrop_price": cfg.fp.airdrop_price.to_string(),
+                    "airdrop_fee_bps": cfg.fp.airdrop_fee_bps, "payment_address": cfg.payment_address, "num_tokens": cfg.num_tokens,
+                    "first_ops": ops.iter().take(8).map(|o| format!("{:?}", o)).collect::<Vec<_>>(), "steps": r.steps, "ok_mints": r.ok_mints})),
+                AnyCase::O(Case2::Base { cfg, ops }) => rep.samples.push(serde_json::json!({"variant": "base-minter", "min_price": cfg.min_price.to_string(),
+                    "mint_fee_bps": cfg.mint_fee_bps,
+                    "first_ops": ops.iter().take(8).map(|o| format!("{:?}", o)).collect::<Vec<_>>(), "steps": r.steps, "ok_mints": r.ok_mints})),
+            }
         }
         if let Some(cq) = r.coq {
-            coq_cases.push(cq);
+            match &c {
+                AnyCase::V(_) => coq_cases.push(cq),
+                AnyCase::O(_) => coq_cases2.push(cq),
+            }
         }
     }
-    // balance the shards: write_cases cuts the list into equal counts, so order the cases such
-    // that every block of that many cases has about the same text size
-    {
-        let shards = 6usize;
-        let per = (coq_cases.len() + shards - 1) / shards;
-        let mut order: Vec<usize> = (0..coq_cases.len()).collect();
-        order.sort_by_key(|i| std::cmp::Reverse(coq_cases[*i].len()));
-        let mut buckets: Vec<(usize, Vec<usize>)> = vec![(0, vec![]); shards];
-        for i in order {
-            let b = buckets.iter_mut().filter(|b| b.1.len() < per).min_by_key(|b| b.0).unwrap();
-            b.0 += coq_cases[i].len();
-            b.1.push(i);
-        }
-        let idx: Vec<usize> = buckets.into_iter().flat_map(|b| b.1).collect();
-        coq_cases = idx.into_iter().map(|i| std::mem::take(&mut coq_cases[i])).collect();
-    }
+    balance_shards(&mut coq_cases, 6);
+    balance_shards(&mut coq_cases2, 3);
     rep.distinct_nontrivial = distinct.len() as u64;
-    rep.rule = "sale worlds on each of the six vending minters with governance-chosen price / mint fee bps / airdrop price / airdrop fee bps (moved by sudo during the history), native or IBC denom, with/without payment address, optional whitelist with its own price, discount set/removed; before every mint the price in force is queried and the sweep price-1, price+1, wrong denom, two coins, nothing (a coin at price 0), exact is sent; evaluations = minter steps executed on the real contracts; distinct_nontrivial = distinct (variant, mint kind, price, denom, fee bps, payment address) among SUCCESSFUL mints".into();
-    out.write_cases("C02", "From LP Require Import Num Pay Sg1 Bank MinterVending SaleCorr.", "scase", "sale_check", &coq_cases, 6, &mut rep);
+    rep.rule = "sale worlds on each of the six vending minters, the three open-edition minters and the base minter, created through their factories with governance-chosen price / mint fee bps / airdrop price / airdrop fee bps (moved by sudo during the history), native or IBC denom, with/without payment address, optional whitelist with its own price, discount set/removed (vending), capped/uncapped (open edition); before every mint the price in force is queried and the sweep price-1, price+1, wrong denom, two coins, nothing (a coin at price 0), exact is sent; evaluations = minter steps executed on the real contracts; distinct_nontrivial = distinct (variant, mint kind, price, denom, fee bps, seller) among SUCCESSFUL mints".into();
+    if !coq_cases.is_empty() {
+        out.write_cases("C02", "From LP Require Import Num Pay Sg1 Bank MinterVending SaleCorr.", "scase", "sale_check", &coq_cases, 6, &mut rep);
+    }
+    if !coq_cases2.is_empty() {
+        out.write_cases("C02oe", "From LP Require Import Num Pay Sg1 Bank MinterVending MinterOpen SaleOeCorr.", "oecase", "sale_oe_check", &coq_cases2, 3, &mut rep);
+    }
     out.finish(&rep);
     println!("C02 harness: {} cases, {} steps, {} monitor violations reported", ncases, rep.evaluations, nviol);
 }
